@@ -1,6 +1,10 @@
 package sym
 
-import "golang.org/x/tools/go/ssa"
+import (
+	"os"
+
+	"golang.org/x/tools/go/ssa"
+)
 
 func init() {
 	// vOnTaskPanic(label): an unrecovered panic in any goroutine of the program
@@ -20,3 +24,5 @@ func init() {
 }
 
 var harnessAPI2 map[string]intrinsic
+
+var debugPreempt = os.Getenv("VDEBUGPREEMPT") != ""
